@@ -10,7 +10,7 @@
                        parse_file (pr_file c1 []) = parse_file (pr_file c2 [])
    What is proved is listed below, production by production (the theorems C15_roundtrip_partial_xxx); the productions that are
    not listed (see fam/idl/NOTES.md) are carried by the three-way correspondence of pv/props/c15.py. *)
-From PVIdl Require Import Comb Ast Parser Print Proofs.RoundTok.
+From PVIdl Require Import Comb Ast Parser Print Proofs.Total Proofs.RoundTok Proofs.RoundTy.
 
 (* identifiers, followed by anything that does not continue a word *)
 Theorem C15_roundtrip_partial_ident : forall s k,
@@ -58,3 +58,33 @@ Theorem C15_roundtrip_partial_literal : forall lf l k,
   wf_lit l = true -> (length (pr_lit l k) < lf)%nat -> p_literal lf (pr_lit l k) = POk k (erase_lit l).
 Proof. exact rt_literal. Qed.
 Print Assumptions C15_roundtrip_partial_literal.
+
+(* paths: identifiers separated by '.', with any blanks around the dots; followed by something that does not
+   continue the last word and is not (after a blank) a dot *)
+Theorem C15_roundtrip_partial_path : forall lf whole, (length whole < lf)%nat -> forall p k,
+  wf_path p = true -> pfollow lf k -> sfx (pr_path p k) whole ->
+  p_path lf (pr_path p k) = POk k (erase_path p).
+Proof. exact rt_path. Qed.
+Print Assumptions C15_roundtrip_partial_path.
+
+(* TYPES, recursive to any depth (base types, list / set / map, paths incl. keyword-prefixed names), every layout:
+   Type::parse inverts printing.  [simple_type]: no cpp_type clause and no annotation list inside the type (the
+   parser still tries both after every type; [tyfollow] says the text that follows is not mistaken for them).
+   [whole] is any text the printed type is a suffix of, [lf] any loop fuel above its length (parse_file uses |s|+1),
+   [df] any depth fuel above the nesting of the type. *)
+Theorem C15_roundtrip_partial_type : forall lf whole, (length whole < lf)%nat -> forall df t k,
+  (type_depth t < df)%nat -> wf_type t = true -> simple_type t = true -> tyfollow lf (type_ends_word t) k ->
+  sfx (pr_type t k) whole ->
+  p_type lf df (pr_type t k) = POk k (erase_type t).
+Proof. exact rt_type. Qed.
+Print Assumptions C15_roundtrip_partial_type.
+
+(* layout independence, for the part proved: two layouts of the same type give the same tree *)
+Theorem C15_layout_free_partial_type : forall lf whole1 whole2 df t1 t2 k1 k2,
+  (length whole1 < lf)%nat -> (length whole2 < lf)%nat ->
+  (type_depth t1 < df)%nat -> wf_type t1 = true -> simple_type t1 = true -> tyfollow lf (type_ends_word t1) k1 -> sfx (pr_type t1 k1) whole1 ->
+  (type_depth t2 < df)%nat -> wf_type t2 = true -> simple_type t2 = true -> tyfollow lf (type_ends_word t2) k2 -> sfx (pr_type t2 k2) whole2 ->
+  erase_type t1 = erase_type t2 ->
+  exists a, p_type lf df (pr_type t1 k1) = POk k1 a /\ p_type lf df (pr_type t2 k2) = POk k2 a.
+Proof. exact type_layout_free. Qed.
+Print Assumptions C15_layout_free_partial_type.
